@@ -338,6 +338,10 @@ class DB:
         self.backup_fs(flush_data.state.height, flush_data.state.tx_count)
         self.history.backup(touched, flush_data.state.tx_count)
         self.flush_utxo_db(flush_data)
+        # state.height was only lowered by the UTXO flush just now.  A header proof served
+        # since backup_fs() truncated the header merkle cache will have extended it over the
+        # block being undone again, so truncate once more.
+        self.header_mc.truncate(flush_data.state.height + 1)
 
         self.log_flush_stats('backup flush', flush_data, time.time() - start_time)
 
